@@ -483,7 +483,7 @@ pub static C11: SimpleProp = SimpleProp {
     id: "C11",
     level: "exploration",
     rule: "one evaluation = one decode of (valid size-bounded LZMA payload under each header option, raw LZMA, or LZMA2 stream) followed by trailing bytes (none / zeros / random / 0xFF / a second payload), through a slice, Cursor, real std BufReader (capacity 1..200 over short reads) or SimSource; reader position afterwards must equal header + encoder-emitted payload length; chained: two payloads decoded back to back from one reader; reused: 2-3 raw payloads decoded in place by ONE raw decoder with reset(None)/reset(Some(size))/reset(Some(None)) (or Lzma2Decoder::reset) between them, position and bytes checked after each; conversely marker-terminated .lzma and .xz with >= 1 trailing byte must fail; distinct by scenario hash, all non-trivial",
-    runs_quick: 60_000,
+    runs_quick: 200_000,
     runs_thorough: 24_000_000,
     both_profiles: false,
     assumptions: &[
